@@ -173,6 +173,19 @@ CLAIMED = {
          "core), producers blocking when the 10 000-slot channel is full, and 'without the producers ever waiting for the broker' are schedule / "
          "liveness questions not decided. math.Min over exact conversions, sync.Cond/Locker as no-ops on data, proto getters executed symbolically.",
          "DESIGN.md §6 C19"),
+ "C14": ("Proof obligations: what a gera hierarchy defines is a recursive heap function (flatHas/flatVal: own entry if present, whatever its value, "
+         "else what the parent hierarchy defines), fuel-encoded; WrapMap.Get/Has, Flattened, FlattenedParent, WrappedAndFlattened (verified on the "
+         "generic bodies, K and V abstract) are each proved equal to one unfolding of it, for chains of any depth, with Set/Del/Wrap/Unwrap framed to "
+         "the one key / the parent link; roleBase.ConsolidatedVarStack = user vars over vars over defaults, each flattened; VarStack.consolidated = the "
+         "stage visibility table (own defaults from STAGE2, own vars from STAGE3, own user vars from STAGE4, locals always on top); setParent of every "
+         "role kind links the three hierarchies kind by kind to the parent's getters; the environment's adapter hands out GlobalDefaults/GlobalVars/"
+         "UserVars as outermost ancestors; Task.BuildTaskCommand/BuildPropertyMap keep the workflow stack as the winning level over class vars over "
+         "class defaults (a genuine defect found here - class defaults beating class vars in the task command - repaired by a fix: commit).",
+         "mergo.Merge(&dst, src, WithOverride) on two maps is assumed to be map union with src winning (site assumption, listed); a frame axiom for "
+         "the heap-dependent ghost functions (entry-allocated arguments, heaps agreeing on entry-allocated objects) is a meta-theorem of the memory "
+         "model, assumed; the distinctness of a role's three maps is a precondition of setParent; the composition of the links through function "
+         "values (ParentAdapter getters) and the template substitution that consumes the stacks are outside the contracts.",
+         "DESIGN.md §6 C14"),
 }
 
 NOT_APPLICABLE = {
